@@ -126,6 +126,10 @@ def twin_scenario(w: World, nsteps: int) -> dict:
         setlabels(e["move"], e.get("name", f"m{i}"))
     if w.sc["driver"] == "GrandCanonical":
         sc["params"]["number_of_exchange_particles"] = int(w.mc.number_of_exchange_particles)
+    if "omit" in sc:
+        # the original relied on the default number of cycles (atoms present when IT was built)
+        sc.pop("omit")
+        sc["params"]["max_cycles"] = int(w.mc.max_cycles)
     for k in ("temperature", "pressure", "chemical_potential"):
         if k in sc["params"] and hasattr(type(w.mc), k):
             sc["params"][k] = float(getattr(w.mc, k))
